@@ -127,6 +127,7 @@ type mapRun struct {
 	maxSteps int
 	hist     []string
 	dirty    bool
+	switched bool // the current value was replaced by a kept version since the last observation
 	removed  bool // a present key has been removed
 	maxSize  int
 	cen      census
@@ -336,7 +337,7 @@ func (r *mapRun) step(rt *rapid.T) {
 		slot %= len(r.pool)
 		r.hist = append(r.hist, fmt.Sprintf("Switch(<-%d)", slot))
 		r.cur = mver{m: r.pool[slot].m, model: cloneModel(r.pool[slot].model)}
-		r.dirty = true
+		r.dirty, r.switched = true, true
 		return
 
 	case "Rebuild":
@@ -347,6 +348,7 @@ func (r *mapRun) step(rt *rapid.T) {
 			ents, _ := drain(cur.Iterator(), 4*keySpace)
 			nm = buildMap(ctor, hs, append(ents, extra...))
 		})
+		r.switched = true
 		for _, t := range extra {
 			r.cur.model[hs.cls(t.I1)] = t.I2
 		}
@@ -360,7 +362,9 @@ func (r *mapRun) check(rt *rapid.T) {
 		return
 	}
 	r.dirty = false
-	observeMap(rt, r.rec, r.sub, "current map", r.cur.m, r.cur.model, r.hs, &r.cen, r.history)
+	vc, ok := observeMap(rt, r.rec, r.sub, "current map", r.cur.m, r.cur.model, r.hs, &r.cen, r.history)
+	r.cen.transition(vc, ok, r.switched)
+	r.switched = false
 	if n := len(r.cur.model); n > r.maxSize {
 		r.maxSize = n
 	}
